@@ -13,7 +13,7 @@ vars == <<cvars, corevars, tvars>>
 Line == Rec[l]
 IsBridge == host \in {"bridge_bin", "bridge_json"}
 
-TInit == CInit /\ table = [progs |-> <<>>, follow |-> <<>>]
+TInit == CInit /\ table = [progs |-> <<>>, follow |-> <<>>, legacy |-> FALSE]
          /\ l = 1 /\ ph = "act" /\ lk = 0 /\ host = ""
          /\ TLCSet(1, 1) /\ TLCSet(2, 0) /\ TLCSet(3, 0)
 
@@ -34,7 +34,7 @@ ToTake == ph' = "take" /\ lk' = 0 /\ UNCHANGED <<l, host>>
 Act ==
   /\ ph = "act" /\ l <= Len(Rec)
   /\ \/ /\ Line.e = "case"
-        /\ Reset /\ table' = [progs |-> Line.progs, follow |-> Line.follow]
+        /\ Reset /\ table' = [progs |-> Line.progs, follow |-> Line.follow, legacy |-> Line.legacy]
         /\ host' = Line.host /\ l' = l + 1 /\ UNCHANGED <<ph, lk>>
      \/ /\ Line.e = "end" /\ Line.drop_ok
         /\ UNCHANGED <<cvars, corevars>> /\ Next1
